@@ -79,10 +79,29 @@ fn checksum_field(out: &mut Vec<u8>, cs: u8, fmt: u8) {
     }
 }
 
+// a TAG block chosen by the checksum-format byte: plain, or with a group parameter g:k-n-id
+fn tag_block(line: &mut Vec<u8>, sel: u8) {
+    let mut t: Vec<u8> = Vec::new();
+    match sel >> 5 {
+        0 | 1 => t.extend_from_slice(b"s:x,c:1"),
+        2 => t.extend_from_slice(format!("g:{}-{}-{}", 1 + (sel & 3), 2 + (sel & 1), (sel as u32 & 31) * 2309).as_bytes()),
+        3 => t.extend_from_slice(format!("g:{}-{}-{},n:{},s:r00366,c:1241544035", 1 + (sel & 3), 3, sel as u32 & 31, sel).as_bytes()),
+        4 => t.extend_from_slice(format!("n:{},g:1-2-{}", sel, 256 + (sel as u32 & 31)).as_bytes()),
+        5 => t.extend_from_slice(format!("c:1696241893,s:2573345,t:{}", sel & 31).as_bytes()),
+        6 => t.extend_from_slice(b"g:2-2-7,d:A!B$C"),
+        _ => {}
+    }
+    let cs = xor(&t);
+    line.push(b'\\');
+    line.extend_from_slice(&t);
+    line.extend_from_slice(format!("*{:02X}", cs).as_bytes());
+    line.push(b'\\');
+}
+
 fn frame(b0: u8, body: &[u8], csfmt: u8) -> Vec<u8> {
-    let mut line = Vec::with_capacity(body.len() + 24);
+    let mut line = Vec::with_capacity(body.len() + 48);
     if b0 & 64 != 0 {
-        line.extend_from_slice(b"\\s:x,c:1*00\\");
+        tag_block(&mut line, csfmt);
     }
     line.push(if b0 & 32 != 0 { b'$' } else { b'!' });
     line.extend_from_slice(body);
